@@ -195,6 +195,33 @@ func (in *Interp) global(o types.Object) (Value, bool) {
 	return nil, false
 }
 
+// uniqueSliceMethod finds the method named m declared on a named slice type of the module, if there is exactly one.
+func (in *Interp) uniqueSliceMethod(m string) *core.Func {
+	var found *core.Func
+	n := 0
+	for _, rel := range in.Prog.RelPkgs() {
+		pkg := in.Prog.Pkg(rel)
+		scope := pkg.Types.Scope()
+		for _, name := range scope.Names() {
+			tn, ok := scope.Lookup(name).(*types.TypeName)
+			if !ok {
+				continue
+			}
+			if _, isSlice := tn.Type().Underlying().(*types.Slice); !isSlice {
+				continue
+			}
+			if f := in.Prog.Func(rel, name+"."+m); f != nil {
+				found = f
+				n++
+			}
+		}
+	}
+	if n == 1 {
+		return found
+	}
+	return nil
+}
+
 // Reset clears the event log and fuel.
 func (in *Interp) Reset() { in.Events = in.Events[:0]; in.Fuel = 100000; in.depth = 0 }
 
@@ -1541,6 +1568,14 @@ func binop(pos token.Pos, op token.Token, l, r Value) (Value, error) {
 		return a - b, nil
 	case token.MUL:
 		return a * b, nil
+	case token.OR:
+		return a | b, nil
+	case token.AND:
+		return a & b, nil
+	case token.XOR:
+		return a ^ b, nil
+	case token.AND_NOT:
+		return a &^ b, nil
 	case token.QUO, token.REM:
 		if b == 0 {
 			return nil, &DivByZero{Pos: pos}
@@ -1831,6 +1866,12 @@ func (f *frame) call(e *ast.CallExpr) ([]Value, error) {
 						}
 					}
 				}
+				if _, isSlice := recv.(*Slice); isSlice {
+					// untagged slice value: dispatch if exactly one named slice type of the module has this method
+					if target := f.in.uniqueSliceMethod(fnObj.Name()); target != nil {
+						return f.in.Call(target, recv, args)
+					}
+				}
 				return nil, unsup(e.Pos(), "interface method %s on %T without a known dynamic type", name, recv)
 			}
 		}
@@ -1853,7 +1894,13 @@ func (f *frame) call(e *ast.CallExpr) ([]Value, error) {
 				// pointer receiver called on a struct value or vice versa
 				if o, ok := recv.(*Obj); ok && o != nil && target.Decl.Recv != nil {
 					if _, isPtr := target.Decl.Recv.List[0].Type.(*ast.StarExpr); !isPtr {
-						recv = &Rec{Fields: o.Fields}
+						recv = &Rec{Fields: o.Fields, T: o.T}
+					}
+				}
+				if r, ok := recv.(*Rec); ok && r != nil && target.Decl.Recv != nil {
+					if _, isPtr := target.Decl.Recv.List[0].Type.(*ast.StarExpr); isPtr {
+						// method with pointer receiver on an addressable value: the callee mutates the caller's variable
+						recv = &Obj{Name: "&recv", Fields: r.Fields, T: r.T}
 					}
 				}
 				return f.in.Call(target, recv, args)
